@@ -46,4 +46,3 @@ package fsnotify
 //@   ensures  old(closed(w.done)) ==> already                                       [C05] "a second Close is told so"
 //@   ensures  nolocks()                                                             [C05 C07]
 
-//@ lockorder shared.mu < inotify.cookiesMu
